@@ -5,7 +5,7 @@ use crate::cgen::{self, Profile};
 use crate::model::{Model, Stats, Violation};
 use crate::runner::*;
 use crate::scenario::*;
-use crate::trace::Trace;
+use crate::trace::{EndHow, Trace};
 use crate::view::View;
 use crate::world::run_case;
 
@@ -25,6 +25,8 @@ pub struct ScenDef {
     pub rule: &'static str,
     pub cases: (u64, u64),
     pub level: &'static str,
+    /// an additional, purpose-built generator run with a tenth of the cases (same oracle)
+    pub extra: Option<fn() -> proptest::strategy::BoxedStrategy<Case>>,
 }
 
 fn classes(s: &Stats, t: &Trace) -> Vec<&'static str> {
@@ -177,6 +179,15 @@ pub fn run(ctx: &Ctx, def: &ScenDef) -> i32 {
             Eval { nontrivial: (def.nontrivial)(&stats, &trace), classes: classes(&stats, &trace), violations, watchdog: trace.watchdog }
         },
     );
+    if let Some(extra) = def.extra {
+        let more = run_prop(ctx, "case", 16, (cases / 10).max(1), extra, |case: &Case| {
+            let (violations, stats, trace) = eval_case(case);
+            let mut c = classes(&stats, &trace);
+            c.push("purpose-built-generator");
+            Eval { nontrivial: (def.nontrivial)(&stats, &trace), classes: c, violations, watchdog: trace.watchdog }
+        });
+        agg.merge(more);
+    }
     let pre_failed = pre.failure.clone();
     agg.merge(pre);
     if pre_failed.is_some() {
@@ -210,6 +221,7 @@ pub const C01: ScenDef = ScenDef {
     rule: "proptest-generated (Config, Vec<ConnScript>) histories: all operations, 1-byte..whole write acceptance, cancellation of cancel-safe ops at generated await points, transport faults, inbound traffic needing acks, resumed/fresh reconnects; every transport's accepted bytes are parsed by the strict reference decoder and each packet must be one the model expects. Non-trivial = at least one partial write, cancellation or fault AND at least two packets after CONNECT; distinct = distinct case value (hash).",
     cases: (240_000, 6_000_000),
     level: "exploration",
+    extra: None,
 };
 
 pub const C02: ScenDef = ScenDef {
@@ -234,6 +246,7 @@ pub const C02: ScenDef = ScenDef {
     rule: "histories dominated by QoS 1 publishes with connection death at generated write/flush/read indices and by handle drop, 2-6 consecutive connections with generated session-present answers, PUBACKs in any order incl. stale ones; oracle = per-message replay invariant over the wire (exactly once per resumed connection before any new id-bearing packet, same id, DUP, byte-identical, acceptance order, never within a connection, never after PUBACK). Non-trivial = some message is retransmitted on a resumed connection; distinct = distinct case value.",
     cases: (240_000, 6_000_000),
     level: "exploration",
+    extra: None,
 };
 
 pub const C03: ScenDef = ScenDef {
@@ -262,6 +275,7 @@ pub const C03: ScenDef = ScenDef {
     rule: "1-8 concurrent QoS 2 publishes, scripted broker PUBREC/PUBCOMP in generated orders and forms, failing PUBREC codes, crashes between the four steps, resumed reconnects, stale PUBRECs; oracle = per (session epoch, id) four-state machine over wire + consumed acks (PUBREL only after successful PUBREC, no PUBLISH afterwards, PUBREL replay once per resumed connection, failing PUBREC ends the exchange, PUBREL order = PUBREC order). Non-trivial = overlapping exchanges with out-of-order acks, or an exchange crossing a reconnect; distinct = distinct case value.",
     cases: (240_000, 6_000_000),
     level: "exploration",
+    extra: None,
 };
 
 pub const C04: ScenDef = ScenDef {
@@ -290,6 +304,7 @@ pub const C04: ScenDef = ScenDef {
     rule: "broker PUBLISH with all QoS, ids, retain, generated property sets (incl. several subscription ids / user properties), DUP retransmissions of pending QoS 2 ids, PUBREL for pending and unknown ids, at most the advertised Receive Maximum unacknowledged, interleaved with outbound traffic on small transmit arenas, resumed/fresh reconnects between PUBLISH and PUBREL; oracle = reference receiver model (deliveries field-wise equal and exactly once, acks owed in arrival order with the right reason class, pending set cleared by a fresh session). Non-trivial = a QoS 2 duplicate, a reconnect between PUBLISH and PUBREL, or >= 3 inbound ids in flight; distinct = distinct case value.",
     cases: (240_000, 6_000_000),
     level: "exploration",
+    extra: None,
 };
 
 pub const C05: ScenDef = ScenDef {
@@ -307,7 +322,41 @@ pub const C05: ScenDef = ScenDef {
     rule: "sequences of 2-8 connections with arbitrary legal session-present answers, interleaved rejected / garbled / EOF / I/O-failed / cancelled handshakes and an arbitrary in-flight mix at each loss; oracle = decoded CONNECT of each transport (clean start only until the first successful CONNACK, client id) plus the replay / discard rules over the wire and handle invalidation. Non-trivial = a fresh and a resumed answer both with something in flight, or a failed handshake with something in flight; distinct = distinct case value.",
     cases: (240_000, 6_000_000),
     level: "exploration",
+    extra: None,
 };
+
+/// C06, second generator: many QoS 2 exchanges between PUBREC and PUBCOMP at once. n publishes, all
+/// PUBRECs, the PUBRELs go out, m more publishes, their PUBRECs before or after the PUBCOMPs of the
+/// first batch - "no QoS 2 exchange is ever dropped because too many of them are waiting for
+/// PUBCOMP", whatever the local limits are.
+fn q2_pressure() -> proptest::strategy::BoxedStrategy<Case> {
+    use proptest::prelude::*;
+    (4usize..14, 1usize..6, any::<bool>(), prop::sample::select(vec![None, None, Some(16u16), Some(9), Some(300)]), any::<bool>(), 0u8..3)
+        .prop_map(|(n, m, reverse, rm, resume, qos1)| {
+            let mut steps: Vec<Step> = Vec::new();
+            for i in 0..n {
+                let q = if (i as u8) < qos1 { 1 } else { 2 };
+                steps.push(Step::Publish(PubSpec::simple(q, 2, 1, i as u8)));
+            }
+            steps.push(Step::Broker(BrokerAct::AckAll { reverse: false }));
+            steps.push(Step::PollIdle { max: 40 });
+            for i in 0..m {
+                steps.push(Step::Publish(PubSpec::simple(2, 2, 1, 100 + i as u8)));
+            }
+            steps.push(Step::Broker(BrokerAct::AckAll { reverse }));
+            steps.push(Step::PollIdle { max: 40 });
+            let props = ConnackProps { receive_max: rm, ..ConnackProps::default() };
+            let mut conns = vec![ConnScript { connect: ConnectSpec { props: props.clone(), ..ConnectSpec::default() }, steps, end: EndHow::Drop }];
+            let drain = vec![Step::Broker(BrokerAct::AckAll { reverse: false }), Step::PollIdle { max: 40 }, Step::Broker(BrokerAct::AckAll { reverse: false }), Step::PollIdle { max: 40 }];
+            if resume {
+                conns.push(ConnScript { connect: ConnectSpec { props, ..ConnectSpec::default() }, steps: drain, end: EndHow::Drop });
+            } else {
+                conns[0].steps.extend(drain);
+            }
+            Case { cfg: Cfg { tx: 2048, ..Cfg::default() }, broker: BrokerMode::Scripted, conns }
+        })
+        .boxed()
+}
 
 pub const C06: ScenDef = ScenDef {
     id: "C06",
@@ -334,6 +383,7 @@ pub const C06: ScenDef = ScenDef {
     rule: "Receive Maximum drawn from {1,2,3,4,7,8,9,300,65535,absent} (weighted to small), QoS 1/2 mixes, generated ack timing/orders (PUBREC long before PUBCOMP), cancellations, resumed reconnects with messages in flight; oracle = counting invariant on the wire at every completed QoS>0 PUBLISH, refused publishes leave nothing on the wire, no accepted exchange vanishes (handles). Non-trivial = Receive Maximum <= 4 with QoS 2 traffic, or a resumed reconnect with in-flight messages; distinct = distinct case value.",
     cases: (240_000, 6_000_000),
     level: "exploration",
+    extra: Some(q2_pressure),
 };
 
 pub const C11: ScenDef = ScenDef {
@@ -356,6 +406,7 @@ pub const C11: ScenDef = ScenDef {
     rule: "random histories with read error / EOF / write error / flush error at generated I/O-call indices, broker DISCONNECT, local disconnect(), followed by a generated tail of further API calls on the same handle; oracle = after the first death result is_connected()/can_publish() stay false, every network op returns the disconnected error (disconnect -> Ok) and the transport's I/O poll counter does not move. Non-trivial = at least one API call was made on a dead handle; distinct = distinct case value.",
     cases: (240_000, 6_000_000),
     level: "fault_enumeration",
+    extra: None,
 };
 
 pub const C18: ScenDef = ScenDef {
@@ -380,6 +431,7 @@ pub const C18: ScenDef = ScenDef {
     rule: "all operation kinds, all ack orders and reason codes (success/failure, all three encodings), reconnect patterns; handle predicates sampled after every step and compared with the model (invalidated iff a fresh session replaced the issuing one, complete iff the final ack was consumed, else pending; exactly one predicate true; failing acks surface as Rejected(code) from the consuming op). Non-trivial = handles with at least two different expected statuses at one sample, or a failure reason code; distinct = distinct case value.",
     cases: (240_000, 6_000_000),
     level: "exploration",
+    extra: None,
 };
 
 pub fn lookup(id: &str) -> Option<&'static ScenDef> {
